@@ -59,21 +59,25 @@ def rule_separators(ctx, f, b, rid, key):
 
 
 def every_element(b, site, via=None):
-    """The call `site` (a Hasher::write / Vec::push whose operand derives from a loop element) is passed on every path through the
-    body of that loop that reaches the next iteration: no element is skipped.  None if the operand is not a loop element.
+    """The call `site` (a Hasher::write / Vec::push / write whose operand derives from a loop element) is passed on every path through the
+    body of the innermost such loop that reaches the next iteration: no element is skipped.  None if no operand is a loop element.
     via: another call site whose operands identify the loop when the operand of `site` is a local built up in the loop body."""
-    ops = [t for a in (via or site).args[1:] for t in subterms(a)]
-    nx = [c for c in b.calls_to("Iterator::next") if c.result_term() in ops]
-    if not nx:
+    ops = [t for a in (via or site).args for t in subterms(a)]
+    cands = []
+    for c in b.calls_to("Iterator::next"):
+        if c.result_term() not in ops:
+            continue
+        si = b.switch_info(c.target)
+        some = [t for v, t in si[1] if v == 1] if si else []
+        if not some:
+            return False
+        body = b.reach(some[0], avoid_blocks=[c.bb])
+        if site.bb in body:
+            cands.append((len(body), c, some[0]))
+    if not cands:
         return None
-    for n_ in nx:
-        si = b.switch_info(n_.target)
-        if not si:
-            return False
-        some = [t for v, t in si[1] if v == 1]
-        if not some or not b.all_paths_pass(some[0], [site.bb], dst_set={n_.bb}):
-            return False
-    return True
+    _, n_, entry = min(cands, key=lambda x: x[0])
+    return b.all_paths_pass(entry, [site.bb], dst_set={n_.bb})
 
 
 FNV_OFFSET_BASIS = 0xcbf29ce484222325
